@@ -46,6 +46,9 @@ pub enum Op {
     Repeat { good: bool, k: u16 },
     /// offer an existing id under a different address / existing address under another id
     Clash { good: bool, k: u16, addr: u16, same_id: bool, tail: u8 },
+    /// a response from a (good) node naming another node: `RoutingTable::add_nodes`, the call the
+    /// handler and the bootstrap make for every accepted answer
+    Response { id: IdSpec, addr: u16, named: IdSpec, named_addr: u16 },
     QuerySent { k: u16 },
     QueryRecv { k: u16 },
     /// milliseconds
@@ -114,6 +117,7 @@ pub fn op() -> impl Strategy<Value = Op> {
     ];
     prop_oneof![
         10 => (any::<bool>(), idspec(), any::<u16>()).prop_map(|(good, id, addr)| Op::Offer { good, id, addr }),
+        3 => (idspec(), any::<u16>(), idspec(), any::<u16>()).prop_map(|(id, addr, named, named_addr)| Op::Response { id, addr, named, named_addr }),
         2 => (any::<bool>(), any::<u16>()).prop_map(|(good, k)| Op::Repeat { good, k }),
         1 => (any::<bool>(), any::<u16>(), any::<u16>(), any::<bool>(), 0u8..6)
             .prop_map(|(good, k, addr, same_id, tail)| Op::Clash { good, k, addr, same_id, tail }),
@@ -214,6 +218,9 @@ pub fn live_of(d: &Dump) -> Vec<(usize, Slot)> {
 #[derive(Clone, Debug)]
 pub enum Applied {
     Offer { good: bool, id: Id, addr: SocketAddr },
+    /// add_nodes(responder, [named]): an offer of the responder as good followed by an offer of
+    /// the named node as hearsay
+    Response { id: Id, addr: SocketAddr, named: Id, named_addr: SocketAddr },
     QuerySent { id: Id, addr: SocketAddr, found: bool },
     QueryRecv { id: Id, addr: SocketAddr, found: bool },
     Advance { ms: u64 },
@@ -262,6 +269,14 @@ impl Interp {
                 let addr = pool_addr(*addr, self.mixed);
                 self.offer(*good, id, addr);
                 Applied::Offer { good: *good, id, addr }
+            }
+            Op::Response { id, addr, named, named_addr } => {
+                let id = self.resolve(id);
+                let named = self.resolve(named);
+                let (addr, named_addr) = (pool_addr(*addr, self.mixed), pool_addr(*named_addr, self.mixed));
+                // first half through add_node so that the caller can check it as an ordinary offer
+                self.offer(true, id, addr);
+                Applied::Response { id, addr, named, named_addr }
             }
             Op::Repeat { good, k } => {
                 let s = self.slots();
@@ -316,6 +331,21 @@ impl Interp {
                 Applied::Advance { ms: *ms }
             }
         }
+    }
+
+    fn resolve(&self, id: &IdSpec) -> Id {
+        let nb = self.table.buckets().count();
+        match id {
+            IdSpec::Abs { bit, tail } => make_id(&self.local, *bit as usize, *tail),
+            IdSpec::Rel { rel, tail } => make_id(&self.local, (nb as i32 - 1 + *rel as i32).clamp(0, 159) as usize, *tail),
+            IdSpec::Local => self.local,
+            IdSpec::Zero => [0u8; 20],
+        }
+    }
+
+    /// second half of a Response: the real add_nodes call (responder again + the named node)
+    pub fn respond(&mut self, id: Id, addr: SocketAddr, named: Id, named_addr: SocketAddr) {
+        self.table.add_nodes(Node::as_good(InfoHash::from(id), addr), &[NodeHandle::new(InfoHash::from(named), named_addr)]);
     }
 
     fn offer(&mut self, good: bool, id: Id, addr: SocketAddr) {
